@@ -248,6 +248,63 @@ func runC01(c *fw.Ctx) {
 		})
 	}
 
+	// ---------- Concat of 3..5 operands whose extents differ (also when they add up to a multiple of the first, as 2, 1, 3 do) and Patch with a
+	// full-length index holding {0,0} entries next to explicit ones, sources smaller than the canvas: weighted and back-propagated ----------
+	for i := 0; i < c.Pick(600, 12000); i++ {
+		c.Case(func(k *fw.K) {
+			r := k.Rng
+			var p ref.Prog
+			var what string
+			if r.Intn(2) == 0 {
+				base := RandShape(r, 1, 3, 3)
+				dim := r.Intn(len(base))
+				ext := [][]int{{2, 1, 3}, {1, 2, 3, 2}, {3, 1, 2}, {1, 3, 1, 2, 3}, {2, 3, 1}, {1, 1, 4}, {2, 2, 1, 3}}[r.Intn(7)]
+				var parts []int
+				for _, e := range ext {
+					sh := ref.CopyInts(base)
+					sh[dim] = e
+					v := Shuffled(r, Unique(r, sh, 0.2, 2))
+					p = append(p, ref.Instr{Op: "leaf", Shape: sh, Data: v.Data, Tracked: r.Intn(4) > 0})
+					parts = append(parts, len(p)-1)
+				}
+				p = append(p, ref.Instr{Op: "concat", In: parts, Dim: dim})
+				what = fmt.Sprintf("concat-extents/%v/%d", ext, dim)
+			} else {
+				canvas := RandShape(r, 1, 3, 4)
+				src := make([]int, len(canvas))
+				idx := make([]ref.Range, len(canvas))
+				for d := range canvas {
+					src[d] = 1 + r.Intn(canvas[d])
+					off := r.Intn(canvas[d] - src[d] + 1)
+					idx[d] = ref.Range{From: off, To: off + src[d]}
+					if r.Intn(2) == 0 { // {0,0}: offset 0 with the source's extent
+						idx[d] = ref.Range{}
+					}
+				}
+				cv, sv := Shuffled(r, Unique(r, canvas, 0.2, 2)), Shuffled(r, Unique(r, src, 3, 5))
+				p = append(p, ref.Instr{Op: "leaf", Shape: canvas, Data: cv.Data, Tracked: r.Intn(2) == 0}, ref.Instr{Op: "leaf", Shape: src, Data: sv.Data, Tracked: true},
+					ref.Instr{Op: "patch", In: []int{0, 1}, Index: idx})
+				what = fmt.Sprintf("patch-forms/%s/%s/%v", shapeKey(canvas), shapeKey(src), idx)
+			}
+			last := len(p) - 1
+			vals, err := p.Eval()
+			if err != nil {
+				k.Failf("harness: %v", err)
+				return
+			}
+			g := Shuffled(r, Unique(r, vals[last].Shape, 0.5, 3))
+			p = append(p, ref.Instr{Op: "leaf", Shape: g.Shape, Data: g.Data}, ref.Instr{Op: "mul", In: []int{last, last + 1}})
+			if vals, err = p.Eval(); err != nil {
+				k.Failf("harness: %v", err)
+				return
+			}
+			k.Case = c01case{Family: "Concat over differing extents / Patch with mixed index forms, weighted", Prog: p, Roots: []int{len(p) - 1}}
+			k.Key("%s", what)
+			k.Count("concat_patch_form_cases", 1)
+			c01OneRoot(k, p, vals, len(p)-1)
+		})
+	}
+
 	// ---------- family 3: deep ladders / fan-out chains (bounded-application clause) ----------
 	depths := []int{8, 16, 24, 32, 48, 64}
 	if !c.Quick() {
